@@ -732,7 +732,9 @@ func init() {
 		if !ok {
 			panic(unsupported("ctx.Err on %T", recv))
 		}
-		return App("ctx.Err", SInt, iv.Id)
+		r := App("ctx.Err", SInt, iv.Id)
+		ec.noteFailure(Not(Eq(r, Int(0))))
+		return r
 	}
 	stdModels["html.EscapeString"] = func(ec *evalCtx, call *ast.CallExpr, recv Value, args []Value) Value {
 		return htmlEscapeModel(ec, scalar(args[0]))
